@@ -24,6 +24,10 @@ chunk (flat / list) = {
   "codec": int,
   "dictionary": [values] | None        # dictionary page content (physical values)
   "stats": dict | None                 # raw Statistics struct to store
+  "dict_enc": int                      # encoding id stored in the dictionary page header (default PLAIN)
+  "encoding_stats": bool               # False: leave ColumnMetaData.encoding_stats out
+  "dictionary_page_offset": int        # stored when the chunk has no dictionary page (e.g. 0)
+  "codec_label": int                   # codec id stored in the metadata instead of "codec"
 }
 page = {
   "n": number of level entries (values incl. nulls) in this page,
@@ -270,6 +274,12 @@ def write_chunk(out, path, leaf, md, mr, reps, defs, vals, chunk, tc):
            "total_compressed_size": len(out) - start, "data_page_offset": data_off}
     if dict_off is not None:
         cmd["dictionary_page_offset"] = dict_off
+    elif chunk.get("dictionary_page_offset") is not None:
+        # some writers store 0 here for a chunk without dictionary page
+        cmd["dictionary_page_offset"] = chunk["dictionary_page_offset"]
+    if chunk.get("codec_label") is not None:
+        # codec id stored in the metadata (pages are compressed with chunk["codec"]): unsupported-codec files
+        cmd["codec"] = chunk["codec_label"]
     if chunk.get("stats") is not None:
         cmd["statistics"] = chunk["stats"]
     if chunk.get("encoding_stats", True):
